@@ -64,6 +64,9 @@ def build(spec, arrays=None):
               extra_atom_fields=[list(r) for r in spec["extra_atom_fields"]] if spec["extra_atom_labels"] else [])
     for k in KINDS:
         kw[k + "s"] = [list(t) for t in spec[k + "s"]]
+        if spec.get("term_arrays") == "fortran" and spec[k + "s"]:
+            # index tables handed over as column-major integer arrays (built column by column / transposed by the caller)
+            kw[k + "s"] = np.asfortranarray(np.array(spec[k + "s"], dtype=int))
         kw[k + "_types"] = list(spec[k + "_types"])
         kw[COEFF_ATTR[k]] = list(spec[k + "_coeffs"])
         kw["extra_%s_labels" % k] = list(spec["extra_%s_labels" % k])
@@ -134,6 +137,14 @@ def resolve(a, what="object", tags=None):
                       "pair": norm_pair(pair[t]) if pair else None,
                       "charge": float(a.charges[i]), "group": int(a.groups[i]),
                       "extra": {l: str(xaf[i][j]) for j, l in enumerate(xal)}})
+    # the per-atom element list the object reports (used by the search, bond detection and the CIF / ASE writers) is the
+    # type table looked up through the per-atom types
+    try:
+        reported = [str(e) for e in a.elements]
+    except Exception as e:
+        bad(".elements raised %s: %r" % (type(e).__name__, e))
+    if reported != [x["el"] for x in atoms]:
+        bad(".elements reports %r, atom types and the type table give %r" % (reported[:12], [x["el"] for x in atoms][:12]))
     terms = {}
     for k in KINDS:
         arr = np.asarray(getattr(a, k + "s"))
